@@ -39,6 +39,7 @@ MUTATORS = {
         ("alias bound to other method", r"quimb/tensor/tensor_core\.py$", r"^(\s+)retag_ = functools\.partialmethod\(retag, inplace=True\)\s*$", r"\1retag_ = functools.partialmethod(reindex, inplace=True)"),
     ],
     "C04": [
+        ("fused gauge skips indices without an entry", r"quimb/tensor/tensor_core\.py$", r"^(\s+)else do\(\"ones\", ts\[0\]\.ind_size\(ix\), like=ts\[0\]\.data\)\s*$", r"\1else None", r"^tensor_multifuse$"),
         ("anti-diagonal pass flips the untested index", r"quimb/tensor/tensor_core\.py$", r"^(\s+)ix_flip = ix_i\s*$", r"\1ix_flip = ix_j", r"^antidiag_gauge$"),
         ("column reduce cuts output indices", r"quimb/tensor/tensor_core\.py$", r"^(\s+)if ind in output_inds:\s*$", r"\1if False:", r"^column_reduce$"),
         ("isometrize flags the requested side whatever the shape", r"quimb/tensor/tensor_core\.py$", r"^(\s+)if x\.shape\[0\] < x\.shape\[1\]:\s*$", r"\1if False:", r"^isometrize$"),
